@@ -6,7 +6,8 @@ from harness import coqio, cparse, nets, compiled, asan
 from harness.common import Check
 from translate import gatecode as t_gc, wrapper as t_wr
 
-THEOREMS = ["C05_pack_lane", "C05_unpack", "C05_rowwise", "C05_rowwise_dense", "C05_in_bounds", "C05_padding"]
+THEOREMS = ["C05_pack_lane", "C05_unpack", "C05_rowwise", "C05_rowwise_dense", "C05_in_bounds", "C05_padding",
+            "C05_independent_of_earlier_calls", "C05_buffers_private"]
 TRUSTED = [
     "Coq 8.16.1 kernel/coqc (vm_compute only in examples and kernel evaluation of the model); all C05 theorems closed under the global context",
     "translators translate/wrapper.py: token equality of the wrapper f-string with the structure modelled in Model/Wrapper.v; "
